@@ -339,6 +339,9 @@ def prepare_label(s: str, convert_unicode: bool, to_snake_case: bool) -> str:
     if not ('a' <= s[0].lower() <= 'z'):
         if '0' <= s[0] <= '9':
             s = ones[int(s[0])] + "_" + s[1:]
+    # pydantic and attrs treat a name with a leading underscore as private: move the underscores to the end
+    head = len(s) - len(s.lstrip("_"))
+    s = s[head:] + s[:head]
     if to_snake_case:
         s = inflection.underscore(s)
     if s in blacklist_words:
